@@ -47,6 +47,10 @@ def plan(tier, seed):
         for ng in (1, 2, 3):
             for extra in ((0, 1, 2, 3) if tier == "quick" else range(10)):
                 shards.append(("index_wide", li, ng, tier, extra))
+    for ng in (1, 2):
+        for frac in ((0.3,) if tier == "quick" else (0.15, 0.3)):
+            for extra in ((0, 1) if tier == "quick" else (0, 1, 2, 3)):
+                shards.append(("mosaic", ng, frac, extra))
     shards.append(("callers",))
     k = seed % len(shards)
     return shards[k:] + shards[:k]
@@ -69,7 +73,54 @@ def npk_within(ubi, gv, tol):
     return int(((d * d).sum(axis=0) < tol * tol).sum())
 
 
+def _run_mosaic(desc):
+    """a slightly mosaic grain: every reflection of a cubic P grain out to d* = 1.3, plus the HIGH-ORDER reflections of a sub-domain 0.46
+    degrees away (those further than 1.3 hkl_tol from the grain's own lattice: split high-angle peaks), fewer than the minimum.  A trial
+    orientation through two sub-domain peaks indexes mostly peaks the grain already owns (all the low orders), so it fails the
+    uniqueness test: the grain is reported once, with or without other grains present"""
+    _, ng, nsub_frac, extra = desc
+    from ImageD11 import indexing, unitcell as ucm
+    indexing.loglevel = 4
+    sh = Shard()
+    cell, sym, dsmax = [4.0, 4.0, 4.0, 90, 90, 90], "P", 1.3
+    hk, B = O.brute_hkls(cell, sym, dsmax)
+    hkls = np.array(sorted(hk), float)
+    nref = len(hkls)
+    hkl_tol = 0.02
+    shift = (seed_of() + extra) % len(ROT_TABLE)
+    rots = [O.rotation_from_axis_angle(*ROT_TABLE[(k + shift) % len(ROT_TABLE)]) for k in range(ng)]
+    ubis_true = [np.linalg.inv(np.dot(R, B)) for R in rots]
+    gvs = [np.dot(np.dot(R, B), hkls.T).T for R in rots]
+    Rs = np.dot(O.rotation_from_axis_angle((3, -1, 2), 0.46), rots[0])
+    gsub = np.dot(np.dot(Rs, B), hkls.T).T
+    off = np.sqrt(((np.dot(ubis_true[0], gsub.T) - hkls.T) ** 2).sum(axis=0))
+    far = np.nonzero(off > 1.3 * hkl_tol)[0]
+    take = far[np.argsort(-off[far])][:int(nsub_frac * nref)]
+    allgv = np.concatenate(gvs + [gsub[take]])
+    order = (np.arange(len(allgv)) * 7919) % len(allgv) if np.gcd(7919, len(allgv)) == 1 else np.arange(len(allgv))[::-1]
+    allgv = np.ascontiguousarray(allgv[order])
+    minpks = int(0.6 * nref)
+    case = {"kind": "mosaic", "ngrains": ng, "subdomain_peaks": int(len(take)), "reflections_per_grain": nref, "minpks": minpks, "hkl_tol": hkl_tol,
+            "orientation_set": extra, "seed": seed_of()}
+    ind = indexing.indexer(unitcell=ucm.unitcell(cell, sym), gv=allgv.copy(), cosine_tol=0.002, minpks=minpks, hkl_tol=hkl_tol, ds_tol=0.005, wavelength=0.3,
+                           uniqueness=0.5, max_grains=100)
+    ind.assigntorings()
+    ind.score_all_pairs()
+    indexing.loglevel = 4
+    found = [np.array(u) for u in ind.ubis]
+    m = [sum(1 for u in found if O.lattice_equivalent(u, t, tol=0.03)) for t in ubis_true]
+    if len(found) != ng or any(x != 1 for x in m):
+        sh.violation("soundness:mosaic-grain-not-reported-exactly-once", case, {"reported": len(found), "matches_per_true_grain": m})
+    sh.evaluations += 1
+    sh.nontrivial += 1
+    sh.outcomes.add(("mosaic", len(found) - ng))
+    sh.sample(case, limit=1)
+    return sh
+
+
 def run_shard(desc):
+    if desc[0] == "mosaic":
+        return _run_mosaic(desc)
     if desc[0] == "callers":
         # score_and_refine (behind scorethem) is declared threadsafe: two indexers in two python threads are inside it at once
         from vt.props import c06
@@ -112,6 +163,9 @@ def run_shard(desc):
     # an extra grain of which only ONE ZONE of reflections was recorded (hkl with h+k+l = 0, or h+2k = 0: a coplanar set in a general
     # direction): whatever is reported for it must still be a right-handed copy of the lattice indexing more than the minimum
     combos += [(0.02, 0.002, -3.0, 0.005, "zone111"), (0.02, 0.002, -3.0, 0.005, "zone120")]
+    # a slightly mosaic first grain: besides its exact reflections, the high-order reflections of a sub-domain 0.46 degrees away (split
+    # high-angle peaks), fewer than the minimum: the sub-domain alone is not reportable, and a trial through two of its peaks indexes
+    # mostly peaks the grain already owns - the grain must not be reported a second time
     if only_low:
         combos = [(0.02, ct, mf, 0.005, "ideal") for ct in (0.002, -0.002) for mf in (0.08, 0.2, 0.3)]
     if wide:
@@ -124,6 +178,14 @@ def run_shard(desc):
         minpks = int(mfrac * nref) if mfrac > 0 else (int(((np.arange(nref) * 7 + 3) % 10 < 3).sum()) if mfrac == -1.0 else nref - 1)
         gvs = [g.copy() for g in gv_grain]
         n_expected = ng
+        if kind == "subdomain":
+            Rs = np.dot(O.rotation_from_axis_angle((3, -1, 2), 0.46), rots[0])
+            gsub = np.dot(np.dot(Rs, B), hkls.T).T
+            far = np.sqrt((np.dot(ubis_true[0], gsub.T) - hkls.T) ** 2).sum(axis=0) > 1.3 * hkl_tol        # clearly off the grain's own lattice
+            take = np.nonzero(far)[0][::-1][:int(0.4 * nref)]                                               # the highest orders first
+            if len(take) < 6:
+                continue
+            gvs.append(gsub[take])
         if kind.startswith("zone"):
             zsel = (hkls[:, 0] + hkls[:, 1] + hkls[:, 2] == 0) if kind == "zone111" else (hkls[:, 0] + 2 * hkls[:, 1] == 0)
             if zsel.sum() < 6 or ng > 3:
@@ -187,6 +249,8 @@ def run_shard(desc):
                     sh.violation("soundness:same-lattice-reported-twice", dict(case, a=a, b=b), {"ubi_a": found[a], "ubi_b": found[b]}); ok = False
                     break
         # ---- completeness on ideal data (and on data where every complete grain is present)
+        if ok and kind == "subdomain" and len(found) != ng:
+            sh.violation("soundness:mosaic-grain-reported-more-than-once", case, {"reported": len(found), "grains": ng})
         if ok and kind in ("ideal", "offsets", "spurious", "partial"):
             matched = []
             for t in range(n_expected):
@@ -367,6 +431,9 @@ def replay(case):
         from vt.props import c06
         return c06.replay(case)
     os.environ["VERIF_SEED"] = str(case.get("seed", 0))
+    if case.get("kind") == "mosaic":
+        r = _run_mosaic(("mosaic", case["ngrains"], case["subdomain_peaks"] / float(case["reflections_per_grain"]) + 1e-9, case["orientation_set"]))
+        return (not r.violations), {"violations": r.violations[:3]}
     if case.get("ds_tol", 0) > 0.01:
         r = run_shard(("index_wide", case["lattice"], case["ngrains"], "thorough", case.get("orientation_set", 0)))
     elif case.get("orientation_set"):
